@@ -851,9 +851,13 @@ func (f *Frame) checkLoopInv(li *loopInfo, latch *ssa.BasicBlock, si int, entry 
 		}
 	}
 	if !entry && (f.safety || f.contract != nil) {
+		var conj []string
 		for _, c := range li.lockComps {
-			lbl := f.label("lock", strings.TrimPrefix(c, "Held_")+":balanced-in-loop:"+li.key)
-			f.assertObl("lock", lbl, nil, guard, eq(f.vc.get(st, c), f.vc.get(li.entryState, c)), "")
+			conj = append(conj, eq(f.vc.get(st, c), f.vc.get(li.entryState, c)))
+		}
+		if len(conj) > 0 {
+			lbl := f.label("lock", "balanced-in-loop:"+li.key)
+			f.assertObl("lock", lbl, nil, guard, and(conj...), "")
 		}
 	}
 	for _, c := range invs {
